@@ -392,19 +392,32 @@ func c07Wants(c *Ctx, fn *ssa.Function) {
 		if !ok {
 			return false, false
 		}
-		switch {
-		case b.Op == token.NEQ && n == -1:
-			return true, true
-		case b.Op == token.EQL && n == -1:
-			return true, false
-		case b.Op == token.GEQ && n == 0 && idx == b.X:
-			return true, true
-		case b.Op == token.LSS && n == 0 && idx == b.X:
-			return true, false
-		case b.Op == token.GTR && n == -1 && idx == b.X:
-			return true, true
+		// strings.Index answers -1 or a position: a comparison with a constant that -1 does not satisfy says "mentioned"
+		// when it is true (idx == 0, idx >= 0, idx != -1), one that -1 satisfies says so when it is false (idx == -1, idx < 0)
+		op := b.Op
+		if idx == b.Y {
+			if m, ok := mirrorOp[op]; ok {
+				op = m
+			}
 		}
-		return false, false
+		var sat bool
+		switch op {
+		case token.EQL:
+			sat = -1 == n
+		case token.NEQ:
+			sat = -1 != n
+		case token.LSS:
+			sat = -1 < n
+		case token.LEQ:
+			sat = -1 <= n
+		case token.GTR:
+			sat = -1 > n
+		case token.GEQ:
+			sat = -1 >= n
+		default:
+			return false, false
+		}
+		return true, !sat
 	}
 	n := 0
 	for _, vr := range virtualReturns(fn) {
